@@ -17,6 +17,7 @@ import (
 	"io"
 	"net"
 	"os"
+	"runtime"
 	"sort"
 	"sync"
 	"sync/atomic"
@@ -991,3 +992,199 @@ func mergeSegs(s []seg20) []seg20 {
 }
 
 func init() { cmds["c20-conn"] = c20conn }
+
+// ---------------------------------------------------------------- histories of one shared Config (ConcConfigTrace)
+type evCfg struct {
+	Stamp   int64  `json:"-"`
+	Ev      string `json:"ev"`
+	Op      int    `json:"op"`
+	Kind    string `json:"kind,omitempty"`
+	Keys    []int  `json:"keys,omitempty"`
+	Off     int    `json:"off"`
+	Resumed bool   `json:"resumed"`
+	NewKey  int    `json:"newkey"`
+}
+
+func cfgKey(id int) [32]byte {
+	var k [32]byte
+	k[0], k[1], k[2] = byte(id), byte(id>>8), 0x5c
+	return k
+}
+
+// c20-config <gm|tls> <workers> <handshakes per worker> <rotations> <seed> <out.ndjson>
+// Workers reconnect to one server Config, each with its own client session cache, while another goroutine installs
+// <<new key, previous first key>> with SetSessionTicketKeys.  Every call is logged as invocation + response (one atomic
+// counter); the handshake's line carries the key of the ticket that was offered, whether the server resumed and the key
+// of the ticket the client holds afterwards if it changed.
+func c20config(args []string) error {
+	var workers, iters, rots int
+	var seed int64
+	fmt.Sscan(args[1], &workers)
+	fmt.Sscan(args[2], &iters)
+	fmt.Sscan(args[3], &rots)
+	fmt.Sscan(args[4], &seed)
+	f, err := loadFixtures()
+	if err != nil {
+		return err
+	}
+	mk := func() (sc *gmtls.Config, cc func(cache gmtls.ClientSessionCache, name string) *gmtls.Config) {
+		if args[0] == "gm" {
+			suites := []uint16{gmtls.GMTLS_SM2_WITH_SM4_SM3}
+			return &gmtls.Config{GMSupport: &gmtls.GMSupport{}, Certificates: []gmtls.Certificate{f.sig, f.enc}, CipherSuites: suites},
+				func(cache gmtls.ClientSessionCache, name string) *gmtls.Config {
+					return &gmtls.Config{GMSupport: &gmtls.GMSupport{}, InsecureSkipVerify: true, CipherSuites: suites, ClientSessionCache: cache, ServerName: name}
+				}
+		}
+		suites := []uint16{gmtls.TLS_ECDHE_RSA_WITH_AES_128_GCM_SHA256}
+		return &gmtls.Config{Certificates: []gmtls.Certificate{f.rsa}, CipherSuites: suites, MinVersion: gmtls.VersionTLS12, MaxVersion: gmtls.VersionTLS12},
+			func(cache gmtls.ClientSessionCache, name string) *gmtls.Config {
+				return &gmtls.Config{InsecureSkipVerify: true, CipherSuites: suites, ClientSessionCache: cache, ServerName: name, MinVersion: gmtls.VersionTLS12, MaxVersion: gmtls.VersionTLS12}
+			}
+	}
+	ticketOf := func(cache gmtls.ClientSessionCache, name string) []byte {
+		cs, ok := cache.Get(name)
+		if !ok || cs == nil {
+			return nil
+		}
+		return append([]byte(nil), gmtls.VerifSessionTicket(cs)...)
+	}
+	connect := func(sc, cc *gmtls.Config) (resumed bool, err error) {
+		ce, se := tcpPair()
+		if ce == nil {
+			return false, fmt.Errorf("no loopback connection")
+		}
+		cli, srv := gmtls.Client(ce, cc), gmtls.Server(se, sc)
+		defer cli.Close()
+		defer srv.Close()
+		r := runHandshake(cli, srv, 20*time.Second)
+		if r.cliErr != nil || r.srvErr != nil || r.timedOut || r.cliPanic != nil || r.srvPanic != nil {
+			return false, fmt.Errorf("handshake on the shared Config failed: client %v, server %v, timeout %v, panics %v %v", r.cliErr, r.srvErr, r.timedOut, r.cliPanic, r.srvPanic)
+		}
+		if cli.ConnectionState().DidResume != srv.ConnectionState().DidResume {
+			return false, fmt.Errorf("the two ends disagree about resumption")
+		}
+		return srv.ConnectionState().DidResume, nil
+	}
+	// calibration (sequential): the 16-byte name in front of a ticket sealed under each key that will be in force
+	names := map[string]int{}
+	for id := 1; id <= rots+1; id++ {
+		sc, ccf := mk()
+		sc.SetSessionTicketKeys([][32]byte{cfgKey(id)})
+		cache := gmtls.NewLRUClientSessionCache(1)
+		if _, err := connect(sc, ccf(cache, "cal")); err != nil {
+			return err
+		}
+		t := ticketOf(cache, "cal")
+		if len(t) < 16 {
+			return fmt.Errorf("calibration: no ticket under key %d", id)
+		}
+		if old, dup := names[string(t[:16])]; dup {
+			return fmt.Errorf("calibration: keys %d and %d have the same name", old, id)
+		}
+		names[string(t[:16])] = id
+	}
+	keyOf := func(t []byte) int {
+		if len(t) < 16 {
+			return 0
+		}
+		return names[string(t[:16])] // 0: a name no key of this run has
+	}
+	sc, ccf := mk()
+	sc.SetSessionTicketKeys([][32]byte{cfgKey(1)})
+	var ctr, ops int64
+	var mu sync.Mutex
+	var evs []evCfg
+	var firstErr error
+	stamp := func() int64 { return atomic.AddInt64(&ctr, 1) }
+	logEv := func(e ...evCfg) { mu.Lock(); evs = append(evs, e...); mu.Unlock() }
+	fail := func(e error) {
+		mu.Lock()
+		if firstErr == nil {
+			firstErr = e
+		}
+		mu.Unlock()
+	}
+	var wg sync.WaitGroup
+	var hsDone int64
+	total := int64(workers * iters)
+	wg.Add(1)
+	go func() { // the rotator: spread over the run
+		defer wg.Done()
+		// Between two rotations the rotator keeps re-installing the list that is already in force.  Those calls do not
+		// change the abstract state (stuttering steps: they are not logged), but they keep SetSessionTicketKeys running
+		// all the time, so that an installation that is not atomic shows its intermediate lists to the handshakes.
+		cur := [][32]byte{cfgKey(1)}
+		for r := 1; r <= rots+1; r++ {
+			for atomic.LoadInt64(&hsDone) < total*int64(r)/int64(rots+1) {
+				sc.SetSessionTicketKeys(cur)
+				runtime.Gosched()
+			}
+			if r > rots {
+				break
+			}
+			op := int(atomic.AddInt64(&ops, 1))
+			inv := evCfg{Stamp: stamp(), Ev: "inv", Op: op, Kind: "rotate", Keys: []int{r + 1, r}}
+			cur = [][32]byte{cfgKey(r + 1), cfgKey(r)}
+			sc.SetSessionTicketKeys(cur)
+			logEv(inv, evCfg{Stamp: stamp(), Ev: "res", Op: op})
+		}
+	}()
+	for w := 0; w < workers; w++ {
+		wg.Add(1)
+		go func(w int) {
+			defer wg.Done()
+			cache := gmtls.NewLRUClientSessionCache(1)
+			name := fmt.Sprint("w", w)
+			cc := ccf(cache, name)
+			for i := 0; i < iters; i++ {
+				before := ticketOf(cache, name)
+				op := int(atomic.AddInt64(&ops, 1))
+				inv := evCfg{Stamp: stamp(), Ev: "inv", Op: op, Kind: "hs", Off: keyOf(before)}
+				if before != nil && inv.Off == 0 {
+					fail(fmt.Errorf("worker %d holds a ticket whose key name belongs to no key of this run", w))
+				}
+				resumed, err := connect(sc, cc)
+				if err != nil {
+					fail(err)
+				}
+				after := ticketOf(cache, name)
+				inv.Resumed = resumed
+				if !bytes.Equal(after, before) {
+					inv.NewKey = keyOf(after)
+					if inv.NewKey == 0 {
+						inv.NewKey = -1 // sealed under something that is no key of this run (e.g. a torn key)
+					}
+				}
+				logEv(inv, evCfg{Stamp: stamp(), Ev: "res", Op: op})
+				atomic.AddInt64(&hsDone, 1)
+			}
+		}(w)
+	}
+	wg.Wait()
+	sort.Slice(evs, func(i, j int) bool { return evs[i].Stamp < evs[j].Stamp })
+	out, err := os.Create(args[5])
+	if err != nil {
+		return err
+	}
+	defer out.Close()
+	bw := bufio.NewWriter(out)
+	defer bw.Flush()
+	if firstErr != nil {
+		b, _ := json.Marshal(map[string]interface{}{"ev": "error", "text": firstErr.Error()})
+		bw.Write(append(b, '\n'))
+	}
+	for _, e := range evs {
+		var b []byte
+		if e.Ev == "res" {
+			b, _ = json.Marshal(map[string]interface{}{"ev": "res", "op": e.Op})
+		} else if e.Kind == "rotate" {
+			b, _ = json.Marshal(map[string]interface{}{"ev": "inv", "op": e.Op, "kind": "rotate", "keys": e.Keys})
+		} else {
+			b, _ = json.Marshal(map[string]interface{}{"ev": "inv", "op": e.Op, "kind": "hs", "off": e.Off, "resumed": e.Resumed, "newkey": e.NewKey})
+		}
+		bw.Write(append(b, '\n'))
+	}
+	return nil
+}
+
+func init() { cmds["c20-config"] = c20config }
